@@ -104,6 +104,13 @@ theorem violation_only_from_guard (T : List Site) (hT : sitesGuarded T = true) (
     · exact (htr s p false (by rw [hpre]; simp)).symm
     · rw [hn, hpre]; simp
 
+/-- the fuel is only a device: with at least `e.depth` units the evaluator finishes on every program whose site indices
+    are rows of the table (so the statements above, which hold for every amount of fuel, are statements about the
+    finished run) -/
+theorem fuel_suffices (T : List Site) (P : PermissionSet) (e : Expr) (l : Log) (hs : e.sitesIn T.length = true)
+    (fuel : Nat) (hf : e.depth ≤ fuel) : (eval T P fuel e l).1 ≠ .stuck :=
+  eval_fin T P fuel e l hf hs
+
 /-- the statement for the table extracted from the current sources -/
 theorem xray_effect_needs_permission (P : PermissionSet) (fuel : Nat) (e : Expr) (s : Nat) (k : Kind)
     (h : Entry.effect s k ∈ (eval sites P fuel e []).2) :
